@@ -21,7 +21,7 @@ import vlib
 
 # dkv tuning of the replay / trace arms: memtable size per generation in turn (bytes; an entry of the reference
 # handler is ~35 bytes, every event writes two), 0 = the repo's default sizes
-DKV = dict(MemSizes=[1, 70, 40, 140, 0, 100], SmallestLevel=1, SwapDelayUs=3000)
+DKV = dict(MemSizes=[1, 70, 40, 140, 0, 100], SmallestLevel=1, SwapDelayUs=1000)
 
 HARNESS_KEYS = ("KeyGroups", "Mode", "Runs", "Kills", "Ckpts", "BudgetSec", "MemSizes", "SmallestLevel", "MaxSizeAmpPct", "SwapDelayUs", "Counts")
 
@@ -156,7 +156,7 @@ def run_deep(c, m):
     # ---- traces
     tr = dict(m.BASE, W=3, Rescale="@{1,2,3}", G=6, GroupDigits=123456, NSplits=4, NRecs=8, KeyDigits=0, OwnerDigits=0, Overlap=True)
     m.stage(c, traces, c, m, tr, 30 if quick else 400, c.seed * 7 + 3, "rescale {1,2,3}, tuned dkv, held writes",
-            dict(DKV, Counts=[1, 2, 3], Overlap=True), dkv_need + ("rescales", "restoredFromSeveral", "ticksWhilePublishing"))
+            dict(DKV, Counts=[1, 2, 3], Overlap=True), ("flushes", "compactions", "restoredWithTables", "rescales", "restoredFromSeveral", "ticksWhilePublishing"))
     c.assumptions += [
         "dkv flush / compaction run free under the operators (tuned memtable and level sizes); their interleaving with the DKV checkpoint is "
         "sampled by the Go scheduler, not enumerated (that enumeration is C08/C18)",
